@@ -102,7 +102,7 @@ func c18LiteralSeed(r *core.Rng) string {
 		return "SELECT " + q + ".c1, " + q + "." + ident() + " + 1, COUNT(" + q + ".c2) FROM " + q + " WHERE " + q + ".c1 = " + lit() + " ORDER BY " + q + ".c1"
 	case 4:
 		// chains of unary signs and NOTs
-		ops := []string{"-", "+", "- -", "-+", "+ -", "!", "NOT "}
+		ops := []string{"-", "+", "- -", "-+", "+ -", "!", "NOT ", "! ", "! ! ", "NOT ! "}
 		e := []string{"1", "0.25", "(-3)", "@v", "1e2", "c1"}[r.Intn(6)]
 		for k := r.Range(1, 3); k > 0; k-- {
 			e = ops[r.Intn(len(ops))] + e
